@@ -140,7 +140,7 @@ impl<'a, R: Read> FixedLengthReader<'a, R> {
 	/// Consumes the remaining bytes.
 	#[inline]
 	pub fn eat_remaining(&mut self) -> Result<(), DecodeError> {
-		copy(self, &mut sink()).unwrap();
+		copy(self, &mut sink())?;
 		if self.bytes_read != self.total_bytes {
 			Err(DecodeError::ShortRead)
 		} else {
